@@ -38,6 +38,16 @@ let () = serve (fun fn req ->
       let name = jcps (jfield req "name") in
       let (a, b) = splitext name in
       JObj [("split", JArr [of_cps a; of_cps b]); ("out", of_cps (sanitize name)); ("base", of_cps (basename name))]
+  | "range" ->
+      let maxb = jnat (jfield req "maxb") in
+      let pieces = split maxb (jbytes (jfield req "file")) in
+      let start = jnat (jfield req "start") in
+      let (q, r) = range_plan maxb start in
+      JObj [("skip_blobs", of_nat q); ("offset", of_nat r); ("body", of_bytes (range_read maxb pieces start));
+            ("old_body", of_bytes (range_read_old maxb pieces start))]
+  | "cancel" ->
+      of_option of_bytes (save_loop [] (split (jnat (jfield req "maxb")) (jbytes (jfield req "file"))) (jnat (jfield req "k")))
+  | "recovered_name" -> of_cps (recovered_file_name (jcps (jfield req "sugg")))
   | "save_name" ->
       let s = jcps (jfield req "sugg") in
       JObj [("strip", of_cps (py_strip s)); ("suggested", of_option of_cps (suggested_save_name s));
